@@ -20,7 +20,7 @@ Has(f) == f \in DOMAIN T
 Clauses ==
   (IF Has("flatten") /\ Ordered(T.tree) /\ T.flatten # Flatten(T.tree) THEN {"flatten"} ELSE {})
   \cup (IF Has("flatten") /\ Unchanged(T.tree) /\ T.flatten # T.tree.val THEN {"unchanged"} ELSE {})
-  \cup (IF Has("squash") /\ NoSubstOverlap(T.tree) /\ T.squash # Flatten(T.tree) THEN {"replace"} ELSE {})
+  \cup (IF Has("squash") /\ Ordered(T.tree) /\ NoSubstOverlap(T.tree) /\ T.squash # Flatten(T.tree) THEN {"replace"} ELSE {})      \* (spans in bounds and ordered, as for C19)
   \cup (IF Has("squash") /\ T.squash # Squash(T.tree.val, T.tree.kids) THEN {"squash"} ELSE {})
   \cup (IF Has("summary") /\ T.summary # Summary(T.tree) THEN {"summary"} ELSE {})
   \cup (IF Has("iter") /\ T.iter # PrePaths(T.tree, <<>>) THEN {"iter"} ELSE {})
